@@ -23,6 +23,22 @@ returns a result that never completes, or a chain of two nested results, and the
 must be the innermost value / first failure (pending while the chain is unresolved).
 Run / RunInline / SafeLink are not named by the statement and get no clause.
 
+The caller's collection: WhenAll / WhenAny get a MUTABLE list which the driver mutates at a
+scripted point after the call (clear, pop, append a foreign result, reverse, replace an
+element, refill with another batch; before / between / after the completions, in the same
+loop quantum as the last completion or after a quiescent point).  "The inputs" of the
+statement are the results passed at the call, so the `Mut` event changes nothing in
+AsyncAbs and every later observation is judged against the original inputs.  Tuples are
+passed too (generators are not accepted by the unchanged code: it takes len()).
+
+Re-entrant registration (comb "Reentrant"): continuations / mapped functions that, while
+they run, make further ContinueWith / Map / Unwrap calls on the SAME source, on the shared
+AsyncResult.Complete() singleton (source 0) or on another result (complete, pending, never
+completing), one to three levels deep, on and off the hub, returning and raising.  Every
+call is a registration of its own in the trace (Reg / RunC / ObsC carry its number) and is
+judged by the same sentences as a single call: exactly once after completion, outcome
+captured, result complete at every quiescent point after the source completed.
+
 Every call INTO the code under test (constructing the results, set / set_exception of an
 input, the combinator call, reading the returned result) is guarded: an exception that
 escapes from it is recorded as an event `Esc(at, exn)` and judged by AsyncAbs -- it never
@@ -72,6 +88,10 @@ RULE = {'C17': 'systematic enumeration (inputs x outcomes x completion orders x 
                '(on_hub both ways, returning a plain value / raising / returning a result object that is complete, failed, '
                'completed at any later point or never) and Map (plain/raising/result-returning function, also never '
                'completing and two-level chains); plus '
+               'WhenAll / WhenAny with the caller mutating the list it passed (kind x position relative to the '
+               'completions) and with tuples; re-entrant registration trees (ContinueWith / Map / Unwrap registered '
+               'from inside a running continuation on the same source, the Complete() singleton or another '
+               'result, depth <= 3, systematic core + seeded random trees); '
                'seeded random batched schedules with partial loop stepping at the largest n; non-trivial = at '
                'least two inputs/levels or a continuation/function; distinct by canonical event list'}
 EXHAUSTIVE = {('C17', 'quick'): True, ('C17', 'thorough'): True}
@@ -226,6 +246,83 @@ def _map_cases():
       yield {'comb': 'Map', 'n': 3, 'ops': ops, 'fnk': 'nest'}
 
 
+MUTS = ('clear', 'pop', 'append', 'reverse', 'replace', 'refill', 'appenddone', 'insert0')
+
+
+def _mut_cases(comb, n, outs_list, kinds, kmax):
+  """The caller mutates the list it passed: every completion order x given outcome assignments x prefix
+  already complete at the call x position of the mutation among the later completions (a quiescent point
+  after every step), plus: all completions and then the mutation within one loop quantum."""
+  for perm in itertools.permutations(range(1, n + 1)):
+    for outs in outs_list:
+      sets = [['set', i, outs[i - 1]] for i in perm]
+      for k in range(min(n, kmax) + 1):
+        pre, post = sets[:k], sets[k:]
+        for mk in kinds:
+          for pos in range(len(post) + 1):
+            items = [['new']] + post[:pos] + [['mut', mk]] + post[pos:]
+            ops = list(pre)
+            for it in items:
+              ops.extend([it, ['q']])
+            yield {'comb': comb, 'n': n, 'ops': ops}
+          if post:
+            yield {'comb': comb, 'n': n, 'ops': pre + [['new']] + post + [['mut', mk], ['q']]}
+
+
+def _node(kind, src, on_hub=True, fnk='ret', kids=()):
+  return {'kind': kind, 'src': src, 'on_hub': on_hub, 'fnk': fnk, 'kids': list(kids)}
+
+
+def _reent_cases():
+  def emit(tree, kinds_list):
+    for kinds in kinds_list:
+      for ops in _sched_cases(kinds):
+        yield {'comb': 'Reentrant', 'n': 2, 'ops': ops, 'tree': tree}
+  parents = [('cw', True), ('cw', False), ('map', True)]
+  kid_kinds = [('cw', True), ('cw', False), ('map', True), ('unwrap', True)]
+  # (a)/(b): the nested call goes to the SAME source as the running continuation: an ordinary result (1),
+  # pending or complete, successful or failed -- or the shared Complete() singleton (0)
+  for p in (0, 1):
+    scheds = [{}] if p == 0 else [{1: 'ok'}, {1: 'fail'}]
+    for pk, ph in parents:
+      for pf in ('ret', 'raise'):
+        for kk, kh in kid_kinds:
+          for c in emit([_node(pk, p, ph, pf, [_node(kk, p, kh)])], scheds):
+            yield c
+    # three levels, and two nested calls from one continuation
+    for kk, kh in kid_kinds[:3]:
+      for gk, gh in (('cw', True), ('map', True)):
+        for c in emit([_node('cw', p, True, 'ret', [_node(kk, p, kh, 'ret', [_node(gk, p, gh)])])], scheds):
+          yield c
+    for c in emit([_node('cw', p, True, 'ret', [_node('cw', p), _node('cw', p, True, 'raise')]),
+                   _node('cw', p)], scheds):
+      yield c
+  # (c): the nested call goes to ANOTHER result: complete, pending (completing later) or never completing
+  for p, k, scheds in ((1, 2, [{1: 'ok', 2: 'ok'}, {1: 'ok', 2: 'fail'}, {1: 'ok'}]),
+                       (1, 0, [{1: 'ok'}, {1: 'fail'}]),
+                       (0, 1, [{1: 'ok'}, {1: 'fail'}, {}])):
+    for ph in (True, False):
+      for kk, kh in (('cw', True), ('map', True), ('unwrap', True)):
+        for c in emit([_node('cw', p, ph, 'ret', [_node(kk, k, kh)])], scheds):
+          yield c
+
+
+def _random_tree(rng, depth):
+  kind = rng.choice(['cw', 'cw', 'map', 'unwrap'])
+  kids = []
+  if kind != 'unwrap' and depth > 1:
+    kids = [_random_tree(rng, depth - 1) for _ in range(rng.choice([0, 1, 1, 2]))]
+  return _node(kind, rng.choice([0, 1, 1, 2]), rng.random() < 0.6, rng.choice(['ret', 'ret', 'raise']), kids)
+
+
+def _random_reent(rng):
+  c = _random_case(rng, 'Reentrant', 2)
+  if rng.random() < 0.3:   # result 2 never completes
+    c['ops'] = [o for o in c['ops'] if not (o[0] == 'set' and o[1] == 2)]
+  c['tree'] = [_random_tree(rng, 3) for _ in range(rng.choice([1, 1, 2]))]
+  return c
+
+
 def _random_case(rng, comb, n):
   perm = list(range(1, n + 1))
   rng.shuffle(perm)
@@ -284,6 +381,28 @@ def cases(prop, tier, seed):
       c['ops'] = [o for o in c['ops'] if not (o[0] == 'set' and o[1] == 2)]
     out.append(c)
   out.extend(_map_cases())
+  # the caller mutates the list it passed / passes a tuple
+  two = list(itertools.product(['ok', 'fail'], repeat=2))
+  out.extend(_mut_cases('WhenAll', 2, two, MUTS[:6] if tier == 'quick' else MUTS, 2))
+  out.extend(_mut_cases('WhenAny', 2, two, ('clear', 'reverse', 'refill') if tier == 'quick' else MUTS, 2))
+  if tier == 'quick':
+    out.extend(_mut_cases('WhenAll', 3, [('ok',) * 3, ('ok', 'fail', 'ok')], ('clear', 'reverse'), 1))
+    out.extend(_mut_cases('WhenAny', 3, [('fail',) * 3, ('fail', 'ok', 'fail')], ('clear',), 1))
+  else:
+    three = list(itertools.product(['ok', 'fail'], repeat=3))
+    out.extend(_mut_cases('WhenAll', 3, three, MUTS[:6], 3))
+    out.extend(_mut_cases('WhenAny', 3, three, ('clear', 'reverse', 'refill'), 3))
+    out.extend(_mut_cases('WhenAll', 4, [('ok',) * 4], ('clear', 'reverse', 'insert0'), 1))
+  for comb in ('WhenAll', 'WhenAny'):
+    for n in (2, 3):
+      for c in _when_cases(comb, n, False):
+        if n == 2 or c['ops'][0][0] == 'new':
+          c['coll'] = 'tuple'
+          out.append(c)
+  # re-entrant registration
+  out.extend(_reent_cases())
+  for _ in range(max(100, nrand // 6)):
+    out.append(_random_reent(rng))
   if tier != 'quick':
     # one forked process per case is dominated by process start-up: pack BUNDLE independent cases
     # (the combinators have no global state) into one trace, separated by Reset events
@@ -328,7 +447,7 @@ def _mk_observer(ars=None):
 class _Ctx(object):
   """One combinator run on the real code (shared by directions A and B)."""
 
-  def __init__(self, comb, n, on_hub=True, fnk='ret'):
+  def __init__(self, comb, n, on_hub=True, fnk='ret', coll='list', tree=None):
     from scales.asynchronous import AsyncResult
 
     class ScriptedError(Exception):
@@ -353,12 +472,21 @@ class _Ctx(object):
     self.escaped = []     # where exceptions escaped from the code under test ('init' | 'set' | 'new' | 'obs')
     self.dead = False     # nothing further can be judged in this run
     self.ars = {}
+    self.coll = coll      # what WhenAll / WhenAny are handed: 'list' (kept, mutable) or 'tuple'
+    self.ins = None       # the very collection object passed to the combinator
+    self.extras = []      # results that are not inputs (put into the caller's list after the call)
+    self.tree = tree or []
+    self.regs = []        # "Reentrant": result of registration c at index c - 1 (None: the call raised)
+    self.complete0 = None
     ok, ars = self._guard('init', lambda: {i: AsyncResult() for i in range(1, n + 1)})
     if ok:
       self.ars = ars
+    if comb == 'Reentrant' and not self.dead:
+      ok, c0 = self._guard('init', lambda: AsyncResult.Complete())
+      self.complete0 = c0
     self.obs = _mk_observer(self.ars)
 
-  def _guard(self, at, call):
+  def _guard(self, at, call, **more):
     """Every call into the code under test goes through here.  An exception that escapes (Exception or
     BaseException) becomes the observable event Esc(at, exn) for AsyncAbs to judge; the driver goes on
     (after 'new': without a result) or stops the run ('init' / 'set' / 'obs': state unknown)."""
@@ -368,10 +496,11 @@ class _Ctx(object):
       if isinstance(e, (KeyboardInterrupt, SystemExit, GeneratorExit, MemoryError)):
         raise
       vid = getattr(e, 'vid', -2)
-      self.ev.append({'e': 'Esc', 'at': at,
-                      'exn': vid if isinstance(vid, int) and not isinstance(vid, bool) else -2})
+      esc = {'e': 'Esc', 'at': at, 'exn': vid if isinstance(vid, int) and not isinstance(vid, bool) else -2}
+      esc.update(more)
+      self.ev.append(esc)
       self.escaped.append(at)
-      if at != 'new':
+      if at not in ('new', 'reg'):
         self.dead = True
       return False, None
 
@@ -392,8 +521,92 @@ class _Ctx(object):
     if ok:
       self.ev.append({'e': 'Set', 'i': i, 'k': kind, 'v': v})
 
+  def mut(self, kind):
+    """The caller mutates the list object it passed to WhenAll / WhenAny."""
+    l = self.ins
+    if self.dead or not isinstance(l, list):
+      return
+
+    def extra(done):
+      ar = self.AsyncResult()
+      if done:
+        ar.set(90 + len(self.extras))
+      self.extras.append(ar)
+      return ar
+
+    def do():
+      if kind == 'clear':
+        del l[:]
+      elif kind == 'pop':
+        if l:
+          l.pop()
+      elif kind == 'append':
+        l.append(extra(False))
+      elif kind == 'appenddone':
+        l.append(extra(True))
+      elif kind == 'reverse':
+        l.reverse()
+      elif kind == 'replace':
+        if l:
+          l[0] = extra(True)
+      elif kind == 'insert0':
+        l.insert(0, extra(False))
+      elif kind == 'refill':       # the scratch list is re-used for the next batch
+        del l[:]
+        l.extend([extra(True), extra(False)])
+      else:
+        raise ValueError(kind)
+    ok, _ = self._guard('init', do)   # the only calls into the code here construct / complete foreign results
+    if ok:
+      self.ev.append({'e': 'Mut', 'k': kind})
+
+  def _register(self, node, by):
+    """One ContinueWith / Map / Unwrap call of a re-entrant tree; the kids are registered from inside the
+    running continuation / mapped function."""
+    if self.dead:
+      return
+    c = len(self.regs) + 1
+    self.regs.append(None)
+    kind = node['kind']
+    src = self.complete0 if node['src'] == 0 else self.ars[node['src']]
+    self.ev.append({'e': 'Reg', 'c': c, 'src': node['src'], 'kind': kind, 'by': by})
+
+    def finish(rdy, arg, w):
+      raises = node['fnk'] == 'raise'
+      v = 700 + c if raises else w
+      self.ev.append({'e': 'RunC', 'c': c, 'ready': rdy, 'arg': arg, 'out': 'raise' if raises else 'ret', 'v': v})
+      for kid in node['kids']:
+        self._register(kid, c)
+      if raises:
+        raise self.Err(v)
+      return v
+
+    if kind == 'cw':
+      def cont(_ar):
+        if _ar.exception is not None:
+          w = 200 + int(getattr(_ar.exception, 'vid', 0))
+        elif isinstance(_ar.value, int):
+          w = 100 + _ar.value
+        else:
+          w = 99
+        return finish(bool(_ar.ready()), 0, 1000 * c + w)
+      call = lambda: src.ContinueWith(cont, on_hub=node['on_hub'])
+    elif kind == 'map':
+      def fn(v):
+        arg = v if isinstance(v, int) and not isinstance(v, bool) else -2
+        return finish(True, arg, 1000 * c + 100 + arg)
+      call = lambda: src.Map(fn)
+    else:
+      call = lambda: src.Unwrap()
+    ok, res = self._guard('reg', call, c=c)
+    self.regs[c - 1] = res if ok else None
+
   def new(self):
     if self.dead:
+      return
+    if self.comb == 'Reentrant':
+      for node in self.tree:
+        self._register(node, 0)
       return
     # logged before the call: whatever the combinator does synchronously (e.g. run the continuation of an
     # already complete source) happens after New
@@ -405,10 +618,9 @@ class _Ctx(object):
     AR = self.AsyncResult
     comb = self.comb
     ins = [self.ars[i] for i in range(1, self.n + 1)]
-    if comb == 'WhenAll':
-      return AR.WhenAll(ins)
-    elif comb == 'WhenAny':
-      return AR.WhenAny(ins)
+    if comb in ('WhenAll', 'WhenAny'):
+      self.ins = tuple(ins) if self.coll == 'tuple' else ins
+      return (AR.WhenAll if comb == 'WhenAll' else AR.WhenAny)(self.ins)
     elif comb == 'Unwrap':
       return self.ars[1].Unwrap()
     elif comb == 'ContinueWith':
@@ -451,6 +663,16 @@ class _Ctx(object):
 
   def observe(self):
     """Observation of the returned result at a quiescent point (None when there is nothing to observe)."""
+    if self.comb == 'Reentrant':
+      for c, res in enumerate(self.regs, 1):
+        if self.dead or res is None:
+          continue
+        ok, o = self._guard('obs', lambda: self.obs(res))
+        if ok:
+          o['e'] = 'ObsC'
+          o['c'] = c
+          self.ev.append(o)
+      return None
     if self.dead or self.res is None:
       return None
     ok, o = self._guard('obs', lambda: self.obs(self.res))
@@ -485,7 +707,8 @@ def run_case(script):
 def _run_one(script):
   loop = common.boot()
   loop.run_until_idle()
-  cx = _Ctx(script['comb'], script['n'], script.get('on_hub', True), script.get('fnk', 'ret'))
+  cx = _Ctx(script['comb'], script['n'], script.get('on_hub', True), script.get('fnk', 'ret'),
+            script.get('coll', 'list'), script.get('tree'))
   for op in script['ops']:
     if cx.dead:
       break
@@ -494,6 +717,8 @@ def _run_one(script):
       cx.set(op[1], op[2])
     elif k == 'new':
       cx.new()
+    elif k == 'mut':
+      cx.mut(op[1])
     elif k == 'q':
       loop.run_until_idle()
       cx.observe()
@@ -505,7 +730,7 @@ def _run_one(script):
 
 def nontrivial(prop, t):
   ev = t['ev']
-  if t['cfg']['n'] >= 2 or t['cfg']['comb'] in ('ContinueWith', 'Map') or any(e['e'] == 'Reset' for e in ev):
+  if t['cfg']['n'] >= 2 or t['cfg']['comb'] in ('ContinueWith', 'Map', 'Reentrant') or any(e['e'] == 'Reset' for e in ev):
     return common.canon([t['cfg'], ev])
   return None
 
